@@ -73,13 +73,18 @@ def progs():
         ("sig", "def prog(a: bool, b: bool) -> bool:\n    a = a and b\n    return a\n"),
         ("sig", "def prog(a: Qint[2], b: Qint[2]) -> Qint[2]:\n    a = a + b\n    a += 1\n    return a\n"),
         ("sig", "def prog(a: bool, b: bool, c: bool) -> Tuple[bool, bool]:\n    b = b ^ a\n    c = c and b\n    return (c, b)\n"),
+        ("sig", "def prog(a: Qfixed[1,6]) -> Qfixed[1,6]:\n    return a\n"),
+        ("sig", "def prog(a: Tuple[Qfixed[3,6], bool]) -> Tuple[bool, Qfixed[3,6]]:\n    return (a[1], a[0])\n"),
+        ("sig", "def prog(a: Qfixed[2,4], b: bool) -> Qfixed[2,4]:\n    return a if b else 1.25\n"),
+        ("sig", "def prog(a: Qchar, b: Qchar) -> bool:\n    return a == b\n"),
+        ("sig", "def prog(a: Tuple[Qchar, bool]) -> Qchar:\n    return a[0] if a[1] else 'k'\n"),
         ("sig", "def prog(a: Qlist[bool, 5]) -> Qint[4]:\n    c = 0\n    for x in a:\n        c += 1 if x else 0\n    return c\n"),
     ]
     return extra + P
 
 
 def make_items(tier, seed):
-    P = [p for p in progs() if corpus.size_ok(p[1], 12, 80)]
+    P = [p for p in progs() if corpus.size_ok(p[1], 16, 80)]
     out = []
     for opt in ("default", "fast"):
         for fam, src in P:
@@ -297,7 +302,10 @@ def check_item(spec):
             v = st.check(s)
             s.pop()
             if v == "sat":
-                res["findings"].append({"kind": "roundtrip-raises", "what": "encode/decode raises %s: %s" % (type(r[1]).__name__, str(r[1])[:120]), "cex": {}, "replayed": replay_exc(qf, ref, s)})
+                if replay_exc(qf, ref, s):
+                    res["findings"].append({"kind": "roundtrip-raises", "what": "encode/decode raises %s: %s" % (type(r[1]).__name__, str(r[1])[:120]), "cex": {}, "replayed": True})
+                else:
+                    res.update(status="inconclusive", note="symbolic run raised %s: %s, the real objects do not on the same input (modelling gap)" % (type(r[1]).__name__, str(r[1])[:80]))
             continue
         enc_ok, out = r[1]
         # (1) encode string spells the argument bits
@@ -345,6 +353,25 @@ def check_item(spec):
         v2 = st.check(s, z3.Or(*[z3.And(c, nund) for _, _, c in rterms]))
         res["nontrivial"] = res["nontrivial"] or v2 == "sat"
         s.pop()
+    # frame condition (concrete): decoding a list reading neither changes the caller's list nor
+    # depends on how often it is decoded
+    if not res["findings"] and res["status"] == "ok":
+        pat = [(j * 5 + 1) % 3 == 0 for j in range(m_out)]
+        lst = list(pat)
+        try:
+            d1 = conc_val(qf.decode_output(lst))
+            d2 = conc_val(qf.decode_output(lst))
+            d3 = conc_val(qf.decode_output("".join("1" if b else "0" for b in pat)))
+            from .c09 import conc as _c
+
+            if lst != pat:
+                res["findings"].append({"kind": "reading-modified", "what": "decode_output changed the list reading it was given: %s -> %s" % (pat, lst), "cex": {}, "replayed": True})
+            elif _c(d1) != _c(d2):
+                res["findings"].append({"kind": "reading-modified", "what": "decoding the same list reading twice gives %r then %r" % (d1, d2), "cex": {}, "replayed": True})
+            elif _c(d1) != _c(d3):
+                res["findings"].append({"kind": "list-vs-string", "what": "reading %s decodes to %r as a list of bools but to %r as a string" % (pat, d1, d3), "cex": {}, "replayed": True})
+        except Exception as e:
+            pass
     # differential concretisation of the twin on two concrete inputs
     if not res["findings"] and res["status"] == "ok":
         dz = differential(tw, m, qf, ref)
